@@ -47,40 +47,51 @@ Inductive sublist {A} : list A -> list A -> Prop :=
 
 (* ---- conformance: v is a value of the annotated type t ------------------
    exact container type, element types, Literal members by value and type,
-   Union members, nested dataclass types (property C05). *)
-Inductive conforms : ty -> pv -> Prop :=
-| CAny v : conforms TAny v
-| CNone : conforms TNone VNone
-| CBool b : conforms TBool (VBool b)
-| CInt z : conforms TInt (VInt z)
-| CFloat h : conforms TFloat (VFloat h)
-| CStr s : conforms TStr (VStr s)
-| CBytes m raw b64 : conforms (TBytes m) (VBytes m raw b64)
-| CTok t : conforms (TTok (tk_kind t)) (VTok t)
-| CEnum e ms m v : In (m, v) ms -> conforms (TEnum e ms) (VEnum e m v)
+   Union members, nested dataclass types (property C05).
+   `conforms_g false` is the strict relation.  `conforms_g true` additionally admits
+   exactly the three leniencies of the default-engine loader that the C05 proof
+   forces (each one a finding, see props/C05.v):
+     LNoneAny    a field annotated `None` keeps whatever it was given (identity parser);
+     LUnionNone  a Union WITHOUT a None member passes None through;
+     LTupleShort a fixed-arity tuple is cut to the input's length when that length is
+                 at least the number of members that cannot be None. *)
+Inductive conforms_g (lax : bool) : ty -> pv -> Prop :=
+| CAny v : conforms_g lax TAny v
+| CNone : conforms_g lax TNone VNone
+| CBool b : conforms_g lax TBool (VBool b)
+| CInt z : conforms_g lax TInt (VInt z)
+| CFloat h : conforms_g lax TFloat (VFloat h)
+| CStr s : conforms_g lax TStr (VStr s)
+| CBytes m raw b64 : conforms_g lax (TBytes m) (VBytes m raw b64)
+| CTok t : conforms_g lax (TTok (tk_kind t)) (VTok t)
+| CEnum e ms m v : In (m, v) ms -> conforms_g lax (TEnum e ms) (VEnum e m v)
 | CSeq k t o xs :
-    seq_type_kind k = true -> Forall (conforms t) xs ->
-    (is_set_kind k = true -> nodupb xs = true) ->
-    conforms (TSeq k t) (VSeq k o xs)
-| CTuple ts o xs : Forall2 conforms ts xs -> conforms (TTuple ts) (VSeq STuple o xs)
-| CVarTuple t o xs : Forall (conforms t) xs -> conforms (TVarTuple t) (VSeq STuple o xs)
+    seq_type_kind k = true -> Forall (conforms_g lax t) xs ->
+    conforms_g lax (TSeq k t) (VSeq k o xs)
+| CTuple ts o xs : Forall2 (conforms_g lax) ts xs -> conforms_g lax (TTuple ts) (VSeq STuple o xs)
+| CVarTuple t o xs : Forall (conforms_g lax t) xs -> conforms_g lax (TVarTuple t) (VSeq STuple o xs)
 | CDict k kt vt o kvs :
-    Forall (fun kv => conforms kt (fst kv) /\ conforms vt (snd kv)) kvs ->
-    nodupb (map fst kvs) = true ->
-    conforms (TDict k kt vt) (VDict k o kvs)
-| COptNone t : conforms (TOptional t) VNone
-| COptSome t v : conforms t v -> conforms (TOptional t) v
-| CUnion ts t v : In t ts -> conforms t v -> conforms (TUnion ts) v
-| CLit vs v : In v vs -> conforms (TLiteral vs) v
+    Forall (fun kv => conforms_g lax kt (fst kv) /\ conforms_g lax vt (snd kv)) kvs ->
+    conforms_g lax (TDict k kt vt) (VDict k o kvs)
+| COptNone t : conforms_g lax (TOptional t) VNone
+| COptSome t v : conforms_g lax t v -> conforms_g lax (TOptional t) v
+| CUnion ts t v : In t ts -> conforms_g lax t v -> conforms_g lax (TUnion ts) v
+| CLit vs v : In v vs -> conforms_g lax (TLiteral vs) v
 | CNT n fts xs :
-    Forall2 (fun ft x => conforms (fst ft) x) fts xs -> conforms (TNamedTuple n fts) (VNT n xs)
+    Forall2 (fun ft x => conforms_g lax (fst ft) x) fts xs -> conforms_g lax (TNamedTuple n fts) (VNT n xs)
 | CTD tid req opt opt' o kvs1 kvs2 :
-    Forall2 (fun kt kv => fst kv = VStr (fst kt) /\ conforms (snd kt) (snd kv)) req kvs1 ->
+    Forall2 (fun kt kv => fst kv = VStr (fst kt) /\ conforms_g lax (snd kt) (snd kv)) req kvs1 ->
     sublist opt' opt ->
-    Forall2 (fun kt kv => fst kv = VStr (fst kt) /\ conforms (snd kt) (snd kv)) opt' kvs2 ->
-    conforms (TTypedDict tid req opt) (VDict DDict o (kvs1 ++ kvs2))
+    Forall2 (fun kt kv => fst kv = VStr (fst kt) /\ conforms_g lax (snd kt) (snd kv)) opt' kvs2 ->
+    conforms_g lax (TTypedDict tid req opt) (VDict DDict o (kvs1 ++ kvs2))
 | CData c fts xs :
-    Forall2 (fun ft x => conforms (fst ft) x) fts xs -> conforms (TData c fts) (VInst c xs).
+    Forall2 (fun ft x => conforms_g lax (fst ft) x) fts xs -> conforms_g lax (TData c fts) (VInst c xs)
+| LNoneAny v : lax = true -> conforms_g lax TNone v
+| LUnionNone ts : lax = true -> conforms_g lax (TUnion ts) VNone
+| LTupleShort ts1 ts2 o xs :
+    lax = true -> Forall2 (conforms_g lax) ts1 xs -> conforms_g lax (TTuple (ts1 ++ ts2)) (VSeq STuple o xs).
+
+Notation conforms := (conforms_g false).
 
 (* ---- well-formed declarations -------------------------------------------
    Default values conform to their annotation (dataclasses does not check this;
